@@ -124,8 +124,11 @@ shim_item_t *shim_lrm(shim_ht_t *s, int kid, int salt)
     return rem;
 }
 
+/* called when a walk does not terminate (cyclic chain): the C++ side records the failing case and exits */
+void (*shim_on_panic)(const char *msg) = NULL;
 struct fa { int *ids; int n, cap; };
-static void fa_cb(void *item, void *cb) { struct fa *f = (struct fa *)cb; if (f->n < f->cap) f->ids[f->n] = ((shim_item_t *)item)->id; f->n++; }
+static void fa_cb(void *item, void *cb) { struct fa *f = (struct fa *)cb; if (f->n < f->cap) f->ids[f->n] = ((shim_item_t *)item)->id; f->n++;
+    if (f->n > f->cap + 100000 && shim_on_panic) shim_on_panic("parsec_hash_table_for_all does not terminate (cyclic bucket chain)"); }
 int shim_for_all(shim_ht_t *s, int *ids, int cap) { struct fa f = { ids, 0, cap }; parsec_hash_table_for_all(&s->ht, fa_cb, &f); return f.n; }
 
 /* ---- read-only internals ---- */
@@ -138,8 +141,12 @@ int shim_locate(shim_ht_t *s, int kid)
     for (parsec_hash_table_head_t *h = s->ht.rw_hash; NULL != h; h = h->next_to_free, depth++) {
         struct shim_bucket *b = (struct shim_bucket *)h->buckets;
         for (size_t i = 0; i < (1ULL << h->nb_bits); i++)
-            for (parsec_hash_table_item_t *it = b[i].first_item; it; it = it->next_item)
+        {   int guard = 0;
+            for (parsec_hash_table_item_t *it = b[i].first_item; it; it = it->next_item) {
                 if ((int)KEY_ID(it->key) == kid + 1) return depth;
+                if (++guard > 100000) { if (shim_on_panic) shim_on_panic("a bucket chain is cyclic"); return -3; }
+            }
+        }
     }
     return -1;
 }
